@@ -28,7 +28,7 @@ def c12_jobs(tier):
 
 C12_LABELS = {"target_called_once", "func_count_plus_one", "add_leaves_func_count", "arrays_same_length", "norecord_no_row",
               "norecord_data_unchanged", "norecord_counts_only_matching_row", "norecord_returns_value", "append_only_if_new",
-              "append_exact", "append_sd", "append_bookkeeping", "others_unchanged", "flags_unchanged", "returns_value",
+              "append_exact", "append_sd", "append_bookkeeping", "others_unchanged", "flags_unchanged", "returns_value", "unused_rows_stay_blank",
               "merge_only_with_sd", "merge_no_new_row", "merge_into_own_record", "merge_precision_weighted_mean",
               "merge_combined_sd", "merge_count", "merge_returns_merged_value", "merge_others_unchanged", "valid_value_accepted",
               "target_gets_point", "target_gets_inverse_transformed_point"}
@@ -223,10 +223,12 @@ def vt_jobs(tier):
         # too coarse for the 1e-9 * width tolerance to be decided on the over-approximation
         jobs.append(J("h_vt:HVT", D=1, nonlinear=True, kinds=[["conc"] + c], points=c[3] < 1e9))
     if tier == "thorough":
-        jobs.append(J("h_vt:HVT", D=3, nonlinear=False))
-        jobs.append(J("h_vt:HVT", D=2, nonlinear=True, kinds=["fin", "inf"]))
+        # (measured: affine D=3 fully symbolic does not finish in 400 s and a symbolic log-candidate next to an unbounded
+        # coordinate ends with a solver 'unknown' -> both stay outside the claim)
         for c in conc[:3]:
-            jobs.append(J("h_vt:HVT", D=2, nonlinear=True, kinds=[["conc"] + c, "fin"]))
+            jobs.append(J("h_vt:HVT", D=2, nonlinear=True, kinds=[["conc"] + c, "fin"], points=c[3] < 1e9))
+        jobs.append(J("h_vt:HVT", D=2, nonlinear=True, kinds=["inf", "inf"]))
+        jobs.append(J("h_vt:HVT", D=3, nonlinear=False, kinds=["fin", "inf", ["conc", -2.0, -1.0, 1.0, 3.0]]))
     return jobs
 
 
@@ -331,7 +333,7 @@ def nb_jobs(tier):
 PS_C13 = {"mesh_exponent_transition", "mesh_size_is_power_of_two", "mesh_at_most_cap", "search_mesh_not_above_poll_mesh"}
 LB_C13 = {"mesh_exponent_changes_only_in_poll", "search_mesh_not_above_poll_mesh_at_loop_head", "mesh_size_consistent", "termination_message_true"}
 PROPS["C13"] = dict(
-    jobs=lambda tier: ps_jobs(tier) + lb_jobs(tier), labels=PS_C13 | LB_C13,
+    jobs=lambda tier: ps_jobs(tier) + lb_jobs(tier) + [J("h_lb:HLBNoisy", D=D, it=it, k0=-2) for D in (1, 2) for it in (1, 2, 3)], labels=PS_C13 | LB_C13,
     required=sorted(PS_C13 | LB_C13),
     bounds=dict(quick="poll step: D=1 with the real direction generator and real candidate filter, mesh exponent k0 in {0,-1,-21}, complete_poll x accelerate_mesh x noise level {0,1,2} x remaining budget {10,1}; D=2 with fixed directions and a box-filter stub; loop body: D<=2, k0 in {0,-1,-19,-20}, every search_count",
                 thorough="poll step: D=1 k0 in {0,-1,-2,-5,-10,-19,-20,-21}, budget {10,2,1,0}; D=2 with the real generator/filter (all sign and permutation outcomes); loop body D<=3, k0 in [0,-22]"),
@@ -375,9 +377,14 @@ PROPS["C04"] = dict(
     time_limit=dict(quick=600, thorough=5400))
 
 C17_LABELS = {"rows_inside_box", "rows_are_input_rows", "rows_pairwise_distinct", "not_already_evaluated", "returned_rows_feasible", "feasible_count",
-              "oracle_called_once"}
+              "oracle_called_once",
+              # the call sites: what the initial design / poll / search actually evaluate is the filtered set
+              "design_points_pairwise_distinct", "design_point_in_search_box", "design_point_oracle_feasible",
+              "poll_points_pairwise_distinct", "poll_point_in_hard_box", "poll_point_oracle_feasible",
+              "evaluated_point_is_projected_gridded_candidate", "evaluated_point_oracle_feasible"}
 PROPS["C17"] = dict(
-    jobs=cc_jobs, labels=C17_LABELS, required=["rows_inside_box", "rows_are_input_rows", "rows_pairwise_distinct", "not_already_evaluated", "returned_rows_feasible"],
+    jobs=lambda tier: cc_jobs(tier) + [j for j in im_jobs(tier, cons=True) if j["params"]["nfs"] == 10] + [J("h_im:HIM", D=1, npts=3, level0=0, B=100, nfs=10, cons=None, fault=False, seed=False)] +
+    ps_jobs("quick", levels=(0,), cons=True, D2=False)[::4] + ss_jobs("quick", levels=(0,), cons=True), labels=C17_LABELS, required=["rows_inside_box", "rows_are_input_rows", "rows_pairwise_distinct", "not_already_evaluated", "returned_rows_feasible"],
     bounds=dict(quick="candidate rows x D x logged rows in {(2,1,1),(2,2,1),(3,1,2),(1,2,0),(2,2,0)}, projection on/off, constraint oracle none/bool/real, tol_mesh 2^-3 (2^-19 for one D=1 job), one coordinate with an infinite box",
                 thorough="up to 3 rows x D=2 with 1 logged row, 2x2 with 2 logged rows, D=3; tol_mesh 2^-19 where the rounding arithmetic stays tractable"),
     outside=["|coordinates| > 64", "full-run consequence 'a deterministic target is never evaluated twice' (follows from obligation not_already_evaluated, which is a listed known finding)"],
@@ -389,7 +396,7 @@ C11_LABELS = {"ctor_accepts_valid_bounds", "log_iff_positive_decade", "plausible
 PROPS["C11"] = dict(
     jobs=vt_jobs, labels=C11_LABELS, required=sorted(C11_LABELS - {"ctor_accepts_valid_bounds"}),
     bounds=dict(quick="affine: D<=2 all four bound vectors and the points symbolic (also with an unbounded coordinate); log: D=1 symbolic bounds with log/exp axiomatised, and 5 concrete decade geometries (1e-12..1e12, exactly one decade, tight boxes); mixed log/affine D=2 with a concrete log coordinate and a symbolic affine one",
-                thorough="affine D=3; symbolic log coordinate next to an unbounded one; mixed problems with the symbolic coordinate free to be log or affine"),
+                thorough="mixed problems with a concrete log coordinate and a symbolic coordinate free to be log or affine (3 geometries); D=3 with one symbolic, one unbounded and one concrete coordinate; fully symbolic affine D=3 does not finish (stays outside)"),
     outside=["the 1e-9 rounding-error clause (reals have no rounding error)", "|bounds| > 1e300 where exp overflows", "log/exp are increasing functions linked as inverses and agreeing with the floating-point values at concrete arguments (over-approximation)"],
     time_limit=dict(quick=600, thorough=5400))
 
@@ -588,12 +595,16 @@ def opt_jobs(tier):
     for D in (1, 2):
         jobs.append(J("h_bc:HBC", D=D, pat=_pat(D), spell={}, nonlinear=False, seed="sym"))
         jobs.append(J("h_bc:HBC", D=D, pat=_pat(D, x0=None), spell={v: "flat" for v in ("lb", "ub", "plb", "pub")}, nonlinear=False))
+    # the transformer and _init_optim_state_ receive the very arrays the caller handed in (np.atleast_2d views)
+    jobs += [j for j in vt_jobs("quick") if j["params"].get("points", True) or True][:11]
+    jobs += [j for j in sb_jobs("quick") if "HSInit" in j["harness"]]
     return jobs
 
 
 C20_LABELS = {"user_value_takes_effect_exactly", "user_value_recorded_as_protected", "caller_dict_unchanged", "dependent_defaults_follow_user_value",
               "other_options_keep_documented_defaults", "later_instance_sees_its_own_defaults", "earlier_instance_unchanged_by_later_construction",
-              "unknown_option_name_rejected", "caller_arrays_unchanged", "caller_options_unchanged"}
+              "unknown_option_name_rejected", "caller_arrays_unchanged", "caller_options_unchanged", "constructor_leaves_argument_arrays_unchanged",
+              "caller_bound_arrays_not_written"}
 PROPS["C20"] = dict(
     jobs=opt_jobs, labels=C20_LABELS, required=sorted(C20_LABELS),
     bounds=dict(quick="every option name found in the two .ini files of the current tree, one symbolic override value each (non-zero real in [2^-20, 2^20]), dimensions (2, then a second instance with 3); 4 unknown names; constructor D<=2 for the caller-array clause",
